@@ -431,3 +431,53 @@ def words_are_not_reduced_behind_the_callers_back(tier, rng, rep):
             rep.case(key=(t, kind), nontrivial=True, sample=inp if (t, kind) == (0, "independent_letters") else None)
             if len(rep.failures) >= 3:
                 return
+
+
+@bounded(P, "long_composites", functions=F_APPLY, note="long arrays of maps acting elementwise on long arrays of points / polygons (hundreds to thousands of units, where a vectorised fast path "
+                                                       "would switch on): every entry is the plain matrix product, associativity and the word clause hold")
+def long_composites(tier, rng, rep):
+    sizes = [2, 37, 341, 342, 400, 1500] + ([5000] if tier == 'thorough' else [])
+    rep.rule = f"N in {sizes} maps (non-symmetric, real and complex) x N points, n = 1, 2, 3; also one map on N points and N maps on one point; polygons for N = 400; oracle: numpy matmul on the coordinate arrays"
+    rep.bound = f"{len(sizes)} sizes x 3 dimensions x 2 fields"
+    for N in sizes:
+        for n in (1, 2, 3):
+            for cplx in (False, True):
+                A = rng.normal(size=(N, n + 1, n + 1)) + 2 * np.identity(n + 1) + (1j * rng.normal(size=(N, n + 1, n + 1)) if cplx else 0)
+                B = rng.normal(size=(N, n + 1, n + 1)) + 2 * np.identity(n + 1)
+                X = rng.normal(size=(N, n + 1)) + (1j * rng.normal(size=(N, n + 1)) if cplx else 0)
+                inp = {"N": N, "n": n, "complex": cplx}
+
+                def same(Y, W, what):
+                    Y, W = np.asarray(Y), np.asarray(W)
+                    if Y.shape != W.shape:
+                        rep.fail("composite_shape", f"{what}: {Y.shape} vs {W.shape}", inp); return False
+                    m = Y[..., :, None] * W[..., None, :]
+                    bad = np.abs(m - np.swapaxes(m, -1, -2)) > 1e-8 * (1 + np.abs(m))
+                    if np.any(bad):
+                        rep.fail("entry_is_the_matrix_product", f"{what}: unit {int(np.argwhere(bad)[0][0])} of {N} is not the matrix applied to the coordinate vector", inp); return False
+                    return True
+
+                def body():
+                    TA, TB = pr.Transformation(A.copy(), column_vectors=True), pr.Transformation(B.copy(), column_vectors=True)
+                    P_ = pr.Point(X.copy())
+                    want = np.einsum('kij,kj->ki', A, X)
+                    if not same((TA @ P_).proj_data, want, "N maps on N points"):
+                        return
+                    if not same(((TA @ TB) @ P_).proj_data, np.einsum('kij,kj->ki', A @ B, X), "(A @ B) @ X"):
+                        return
+                    if not same((TA @ (TB @ P_)).proj_data, np.einsum('kij,kj->ki', A @ B, X), "A @ (B @ X)"):
+                        return
+                    T0 = pr.Transformation(A[0].copy(), column_vectors=True)
+                    if not same((T0 @ P_).proj_data, X @ A[0].T, "one map on N points"):
+                        return
+                    if not same((TA @ pr.Point(X[0].copy())).proj_data, A @ X[0], "N maps on one point"):
+                        return
+                    if N == 400 and n == 2 and not cplx:
+                        V = rng.normal(size=(N, 4, 3))
+                        Q = TA @ pr.Polygon(V.copy())
+                        if not same(Q.proj_data, np.einsum('kij,kvj->kvi', A, V), "N maps on N polygons"):
+                            return
+                rep.attempt("apply_runs", inp, body)
+                rep.case(key=(N, n, cplx), nontrivial=N * (n + 1) >= 1024, sample=inp if (N, n, cplx) == (342, 2, False) else None)
+                if len(rep.failures) >= 3:
+                    return
